@@ -62,6 +62,11 @@ Values == 1..Len(KeyOf)
 SK(v) == IF KeyOf[v] >= NullKey THEN NullKey ELSE KeyOf[v]
 ValLess(a, b) == SK(a) < SK(b) \/ (SK(a) = SK(b) /\ a < b)
 SortVals(S) == SetToSortSeq(S, ValLess)
+\* the values of a set of objects as one sequence, with multiplicity (after an object-level revert
+\* two live objects can hold the same value), and its sort in pool-key order
+SeqOfObjs(O) == LET ids == SetToSeq(O) IN FlattenSeq([i \in 1..Len(ids) |-> objs[ids[i]]])
+SortSeqVals(q) == SortSeq(q, ValLess)
+SeqBag(q) == [v \in ToSet(q) |-> Cardinality({i \in 1..Len(q) : q[i] = v})]
 Vals(o) == ToSet(objs[o])
 ValsOf(O) == UNION {Vals(o) : o \in O}
 
@@ -80,7 +85,7 @@ Fold(c) ==
 
 Data(c) == ValsOf(Fold(c).o)
 \* the values a scan of a set of objects returns, with multiplicity
-BagOfObjs(O) == FoldSet(LAMBDA o, acc : acc (+) SetToBag(Vals(o)), EmptyBag, O)
+BagOfObjs(O) == SeqBag(SeqOfObjs(O))
 DataBag(c) == BagOfObjs(Fold(c).o)
 \* a commit can be read iff its log replays and all its objects' files exist
 Readable(c) == Fold(c).ok /\ Fold(c).o \subseteq present
@@ -93,10 +98,11 @@ Branches == {b \in BranchNames : Exists(b)}
 
 \* ---- object layouts -----------------------------------------------------
 \* lake.Writer (load, delete-where): sorted buffer, flushed every Threshold bytes.
-WriterObjs(S) ==
-  IF S = {} THEN <<>>
-  ELSE IF ObjMode = "all" THEN <<SortVals(S)>>
-  ELSE [i \in 1..Cardinality(S) |-> <<SortVals(S)[i]>>]
+WriterObjsSeq(q) ==      \* q sorted
+  IF q = <<>> THEN <<>>
+  ELSE IF ObjMode = "all" THEN <<q>>
+  ELSE [i \in 1..Len(q) |-> <<q[i]>>]
+WriterObjs(S) == WriterObjsSeq(SortVals(S))
 \* lake.SortedWriter (compaction): a new object is started when the key changes
 \* AND data.Writer.BytesWritten() has reached the threshold.  BytesWritten only
 \* counts flushed ZNG frames, so for the few small values of this model nothing
@@ -112,8 +118,8 @@ GroupByKey(s) ==
        <<SubSeq(s, 1, n)>> \o GroupByKey(SubSeq(s, n + 1, Len(s)))
 \* With a seek stride of a few bytes every value ends a frame, BytesWritten reaches a 1-byte
 \* threshold at once, and the split rule is observable: CompactSplit = TRUE (object per distinct key).
-SortedWriterObjs(S) ==
-  IF S = {} THEN <<>> ELSE IF CompactSplit THEN GroupByKey(SortVals(S)) ELSE <<SortVals(S)>>
+SortedWriterObjsSeq(q) ==   \* q sorted
+  IF q = <<>> THEN <<>> ELSE IF CompactSplit THEN GroupByKey(q) ELSE <<q>>
 
 NewIds(n) == (Len(objs) + 1)..(Len(objs) + n)
 
@@ -174,7 +180,7 @@ Delete(b, o) ==
   /\ Allowed("delete") /\ Exists(b) /\ o \in 1..Len(objs)
   /\ LET rec == [op |-> "delete", b |-> b, obj |-> o] IN
      IF o \in Fold(tip[b]).o
-     THEN Commit(rec, b, {}, {o}, {}, {}, <<>>, [live EXCEPT ![b] = @ (-) SetToBag(Vals(o))], loaded)
+     THEN Commit(rec, b, {}, {o}, {}, {}, <<>>, [live EXCEPT ![b] = @ (-) SeqBag(objs[o])], loaded)
      ELSE Fail(rec)
 
 Matches(p, v) == KeyOf[v] \in PredKeys[p]
@@ -184,8 +190,8 @@ DeleteWhere(b, p) ==
   /\ LET rec == [op |-> "deletewhere", b |-> b, pred |-> p]
          snap == Fold(tip[b]).o
          hit == {o \in snap : \E v \in Vals(o) : Matches(p, v)}
-         rest == {v \in ValsOf(hit) : ~Matches(p, v)}
-         newobjs == WriterObjs(rest) IN
+         rest == SelectSeq(SeqOfObjs(hit), LAMBDA v : ~Matches(p, v))
+         newobjs == WriterObjsSeq(SortSeqVals(rest)) IN
      IF hit = {} THEN Fail(rec)                                         \* empty transaction
      ELSE Commit(rec, b, NewIds(Len(newobjs)), hit, {}, {}, newobjs,
                  [live EXCEPT ![b] = LET old == @ IN [v \in {x \in DOMAIN old : ~Matches(p, x)} |-> old[v]]], loaded)
@@ -194,7 +200,7 @@ DeleteWhere(b, p) ==
 Compact(b, S, vec) ==
   /\ Allowed("compact") /\ Exists(b)
   /\ S \subseteq Fold(tip[b]).o /\ Cardinality(S) >= 2
-  /\ LET newobjs == SortedWriterObjs(ValsOf(S))  ids == NewIds(Len(newobjs)) IN
+  /\ LET newobjs == SortedWriterObjsSeq(SortSeqVals(SeqOfObjs(S)))  ids == NewIds(Len(newobjs)) IN
      Commit([op |-> "compact", b |-> b, objs |-> S, vec |-> vec], b,
             ids, S, IF vec THEN ids ELSE {}, {}, newobjs, live, loaded)
 
